@@ -305,7 +305,7 @@ def hyp_documents(draw, tier):
 
 
 PARTS = [
-    Part("histories", run_histories, strategy=hyp_histories, n={"quick": 600, "thorough": 30000}),
-    Part("routes", run_routes, strategy=hyp_routes, n={"quick": 600, "thorough": 30000}),
-    Part("documents", run_documents, strategy=hyp_documents, n={"quick": 200, "thorough": 10000}),
+    Part("histories", run_histories, strategy=hyp_histories, n={"quick": 600, "thorough": 100000}),
+    Part("routes", run_routes, strategy=hyp_routes, n={"quick": 600, "thorough": 100000}),
+    Part("documents", run_documents, strategy=hyp_documents, n={"quick": 200, "thorough": 30000}),
 ]
